@@ -375,6 +375,7 @@ type CqlServerConnection struct {
 	handlerCtx         []RequestHandlerContext
 	incoming           chan *frame.Frame
 	outgoing           chan *response
+	channelsLock       *sync.RWMutex // guards incoming and outgoing: they are closed and set to nil by Close
 	waitGroup          *sync.WaitGroup
 	closed             int32
 	onClose            func(*CqlServerConnection)
@@ -415,6 +416,7 @@ func newCqlServerConnection(
 		handlerCtx:   make([]RequestHandlerContext, len(handlers)),
 		incoming:     make(chan *frame.Frame, maxInFlight),
 		outgoing:     make(chan *response, maxInFlight),
+		channelsLock: &sync.RWMutex{},
 		waitGroup:    &sync.WaitGroup{},
 		onClose:      onClose,
 		payloadAccumulator: &payloadAccumulator{
@@ -483,10 +485,11 @@ func (c *CqlServerConnection) incomingLoop() {
 func (c *CqlServerConnection) outgoingLoop() {
 	log.Debug().Msgf("%v: listening for outgoing frames...", c)
 	c.waitGroup.Add(1)
+	responses := c.outgoing // Close sets the field to nil
 	go func() {
 		abort := false
 		for !c.IsClosed() {
-			if outgoing, ok := <-c.outgoing; !ok {
+			if outgoing, ok := <-responses; !ok {
 				if !c.IsClosed() {
 					log.Error().Msgf("%v: outgoing frame channel was closed unexpectedly, closing connection", c)
 					abort = true
@@ -666,12 +669,14 @@ func (c *CqlServerConnection) reportConnectionFailure(err error, read bool) (abo
 
 func (c *CqlServerConnection) processIncomingFrame(incoming *frame.Frame) {
 	log.Debug().Msgf("%v: received incoming frame: %v", c, incoming)
+	c.channelsLock.RLock()
 	select {
 	case c.incoming <- incoming:
 		log.Debug().Msgf("%v: incoming frame successfully delivered: %v", c, incoming)
 	default:
 		log.Error().Msgf("%v: incoming frames queue is full, discarding frame: %v", c, incoming)
 	}
+	c.channelsLock.RUnlock()
 	if len(c.handlers) > 0 {
 		c.invokeRequestHandlers(incoming)
 	}
@@ -727,6 +732,8 @@ func (c *CqlServerConnection) Send(f *frame.Frame) error {
 		return fmt.Errorf("%v: connection closed", c)
 	}
 	log.Debug().Msgf("%v: enqueuing outgoing frame: %v", c, f)
+	c.channelsLock.RLock()
+	defer c.channelsLock.RUnlock()
 	select {
 	case c.outgoing <- newFrameResponse(f):
 		log.Debug().Msgf("%v: outgoing frame successfully enqueued: %v", c, f)
@@ -742,6 +749,8 @@ func (c *CqlServerConnection) SendRaw(rawResponse []byte) error {
 		return fmt.Errorf("%v: connection closed", c)
 	}
 	log.Debug().Msgf("%v: enqueuing outgoing raw response: %v", c, rawResponse)
+	c.channelsLock.RLock()
+	defer c.channelsLock.RUnlock()
 	select {
 	case c.outgoing <- newRawResponse(rawResponse):
 		log.Debug().Msgf("%v: outgoing frame successfully enqueued: %v", c, rawResponse)
@@ -758,7 +767,13 @@ func (c *CqlServerConnection) Receive() (*frame.Frame, error) {
 		return nil, fmt.Errorf("%v: connection closed", c)
 	}
 	log.Debug().Msgf("%v: waiting for incoming frame", c)
-	if incoming, ok := <-c.incoming; !ok {
+	c.channelsLock.RLock()
+	requests := c.incoming
+	c.channelsLock.RUnlock()
+	if requests == nil {
+		return nil, fmt.Errorf("%v: connection closed", c)
+	}
+	if incoming, ok := <-requests; !ok {
 		if c.IsClosed() {
 			return nil, fmt.Errorf("%v: connection closed", c)
 		} else {
@@ -783,12 +798,14 @@ func (c *CqlServerConnection) Close() (err error) {
 		log.Debug().Msgf("%v: closing", c)
 		c.cancel()
 		err = c.conn.Close()
+		c.channelsLock.Lock()
 		incoming := c.incoming
 		outgoing := c.outgoing
 		c.incoming = nil
 		c.outgoing = nil
 		close(incoming)
 		close(outgoing)
+		c.channelsLock.Unlock()
 		c.waitGroup.Wait()
 		c.onClose(c)
 		if err != nil {
